@@ -718,14 +718,14 @@ def run(ctx, args):
     skip = os.environ.get("C16_SKIP", "").split(",")     # development only
     brow, bwhy, bouts = {}, {}, {}
     if "binary" not in skip:
-        brow, bwhy, bouts = binary_observe(ctx, harness, trimmer, progs, 6000 if thorough else 500)
+        brow, bwhy, bouts = binary_observe(ctx, harness, trimmer, progs, 6000 if thorough else 400)
     allrows = dict(rows)
     allrows.update(brow)
     rejected = validate(ctx, progs, allrows, "all")
     stale_b = inproc_judge(ctx, harness, progs, rows, whys, {k: v for k, v in rejected.items() if k[2] == "inproc"})
     binary_judge(ctx, progs, brow, bwhy, bouts, rows, {k: v for k, v in rejected.items() if k[2] == "binary"})
     if "lab" not in skip:
-        lab_phase(ctx, progs, rows, rejected, 120 if thorough else 16)
+        lab_phase(ctx, progs, rows, rejected, 120 if thorough else 12)
     if stale_b and not ctx.violations:
         # B-only counterexamples: B predicts a violation of A the real code does not show -> B is a wrong transcription
         pi, ci = stale_b[0]
